@@ -724,6 +724,5 @@ func initIterableBase() {
 
 			return counter.ToValue(), value.Undefined
 		},
-		DefWithParameters(1),
 	)
 }
